@@ -8,7 +8,10 @@ Lemma C04_facts_ok :
   load_accepts_empty = Known true /\ load_resets_state = Known true /\
   (* the merged metadata is validated before anything is stored, on the single and on the batch path: what a replica
      holds stays within what a snapshot can carry, so restoring at any cut reproduces it (C08's bounds, C12's theorem) *)
-  update_checks_merged_metadata = Known true.
+  update_checks_merged_metadata = Known true /\
+  (* a snapshot is taken on the apply goroutine, between two entries, and labelled with the index applied so far: its
+     contents are the replay of exactly the entries up to its label (the premise of the snapshot-cut theorem) *)
+  snapshot_on_apply_goroutine = Known true /\ snapshot_labelled_with_applied_index = Known true.
 Proof. repeat split; reflexivity. Qed.
 
 (* any two replicas — whatever their graphs, levels and iteration orders, as long as their index meets the store
